@@ -70,7 +70,7 @@ Grid(sl) ==
           rset |-> {"default", "none", "custom", "wide"}, bo |-> {"b2m4"}, st |-> StAll,
           raa |-> {"absent", "secs_small", "inf"}, exc |-> ExcAll, ep |-> {"-"}]
     [] sl = "backoff_breadth" -> \* thorough: every (base, max) pair
-         [mode |-> {"retry"}, mr |-> {0, 1, 2}, conn |-> BOOLEAN, ra |-> BOOLEAN, rset |-> {"default"},
+         [mode |-> {"retry"}, mr |-> {0, 1, 2}, conn |-> {TRUE}, ra |-> BOOLEAN, rset |-> {"default"},
           bo |-> {"b0m4", "b2m32", "b2m0", "b8m4"}, st |-> {"ok2xx", "s413", "s503"},
           raa |-> RA7, exc |-> ExcAll, ep |-> {"-"}]
     [] sl = "stream_full" ->     \* thorough: exchange / cancel over the full alphabet
